@@ -753,6 +753,45 @@ def s_winwin_call_loop(out: f32[4, 8]):
             out[i, j] = x[6 + i, j]
 
 
+@seed("if_else", "blocks")
+@proc
+def s_if_else_blocks(n: size, b: bool, x: f32[n], y: f32[n], z: f32[n]):
+    # several statements in the then- and in the else-branch of one `if` (moves inside one branch must leave
+    # cursors into the other branch alone)
+    assert n > 1
+    for i in seq(0, n):
+        if b:
+            x[i] = 1.0
+            y[i] = 2.0
+            z[i] = 3.0
+        else:
+            z[i] = 4.0
+            y[i] = 5.0
+            x[i] = 6.0
+
+
+@seed("call", "stride_assert", "rows")
+@proc
+def s_rows_unit(A: f32[4, 4], B: f32[4, 4]):
+    # rows of dense 2-D arguments handed to callees that assert unit stride
+    for i in seq(0, 4):
+        sp_zero4(A[i, 0:4])
+    for i in seq(0, 4):
+        ins_copy4(B[i, 0:4], A[i, 0:4])
+
+
+@seed("shadow", "inline")
+@proc
+def s_shadow_arg(n: size, k: index, x: f32[8], y: f32[8]):
+    # loop iterators that print like the arguments n and k (legal shadowing)
+    assert n <= 8
+    assert k >= 0 and k < 4
+    for n in seq(0, 4):
+        x[n] = y[n + k]
+    for k in seq(0, n):
+        y[k] = 1.0
+
+
 @seed("alloc", "loop2", "dims")
 @proc
 def s_alloc2d_lit(x: f32[8]):
